@@ -189,27 +189,27 @@ func buildExpected(cs *caseJ) map[string]expected {
 
 // diffAll describes the first difference between what is stored for a measurement and "all valid lines stored".
 // invented=true when the difference is something stored that no valid line said (never admissible).
-func diffAll(cs *caseJ, exp expected, obs observed) (msg string, invented bool) {
+func diffAll(cs *caseJ, exp expected, obs observed) (msg string, invented bool, line int) {
 	for sk, rows := range obs {
 		er, ok := exp[sk]
 		if !ok {
 			if len(rows) == 0 {
 				continue
 			}
-			return fmt.Sprintf("series %s with %d row(s) is stored, but no valid line wrote it%s", sk, len(rows), brokenHint(cs, sk, rows)), true
+			return fmt.Sprintf("series %s with %d row(s) is stored, but no valid line wrote it%s", sk, len(rows), brokenHint(cs, sk, rows)), true, -1
 		}
 		for ts, row := range rows {
 			e, ok := er[ts]
 			if !ok {
-				return fmt.Sprintf("series %s has a row at time %d (%v) that no valid line wrote%s", sk, ts, row, brokenHint(cs, sk, rows)), true
+				return fmt.Sprintf("series %s has a row at time %d (%v) that no valid line wrote%s", sk, ts, row, brokenHint(cs, sk, rows)), true, -1
 			}
 			for fk, c := range row {
 				f, ok := e.fields[fk]
 				if !ok {
-					return fmt.Sprintf("line %q: field %q = %v is stored but was not written", cs.Lines[e.line].Text, fk, c), true
+					return fmt.Sprintf("line %q: field %q = %v is stored but was not written", cs.Lines[e.line].Text, fk, c), true, e.line
 				}
 				if !cellMatches(c, f) {
-					return fmt.Sprintf("line %q: field %q reads back as %v, written %s", cs.Lines[e.line].Text, fk, c, f.describe()), true
+					return fmt.Sprintf("line %q: field %q reads back as %v, written %s", cs.Lines[e.line].Text, fk, c, f.describe()), true, e.line
 				}
 			}
 		}
@@ -219,16 +219,16 @@ func diffAll(cs *caseJ, exp expected, obs observed) (msg string, invented bool) 
 		for ts, e := range er {
 			row, ok := rows[ts]
 			if !ok {
-				return fmt.Sprintf("line %q: no row at time %d in series %s", cs.Lines[e.line].Text, ts, sk), false
+				return fmt.Sprintf("line %q: no row at time %d in series %s", cs.Lines[e.line].Text, ts, sk), false, e.line
 			}
 			for fk, f := range e.fields {
 				if _, ok := row[fk]; !ok {
-					return fmt.Sprintf("line %q: field %q (%s) is missing in the row read back", cs.Lines[e.line].Text, fk, f.describe()), false
+					return fmt.Sprintf("line %q: field %q (%s) is missing in the row read back", cs.Lines[e.line].Text, fk, f.describe()), false, e.line
 				}
 			}
 		}
 	}
-	return "", false
+	return "", false, -1
 }
 
 func brokenHint(cs *caseJ, sk string, rows map[int64]map[string]cell) string {
@@ -246,6 +246,26 @@ func brokenHint(cs *caseJ, sk string, rows map[int64]map[string]cell) string {
 // shardBucket identifies the 7-day shard group of a timestamp (groups start on Mondays; 1970-01-01 was a Thursday).
 func shardBucket(ts int64) int64 {
 	return (ts/1e9 + 3*86400) / (7 * 86400)
+}
+
+// violation is a property violation; line >= 0 names the line of the case it is about.
+type violation struct {
+	msg  string
+	line int
+}
+
+func (v *violation) Error() string { return v.msg }
+
+// reduceToLine builds the one-line case of line i under a fresh measurement prefix.
+func reduceToLine(cs *caseJ, i int, prefix string) *caseJ {
+	b, _ := json.Marshal(cs.Lines[i])
+	var l lineJ
+	_ = json.Unmarshal(b, &l)
+	l.Text = strings.ReplaceAll(l.Text, cs.Prefix, prefix)
+	if l.Exp != nil {
+		l.Exp.Mst = strings.ReplaceAll(l.Exp.Mst, cs.Prefix, prefix)
+	}
+	return &caseJ{Kind: cs.Kind, Precision: cs.Precision, Prefix: prefix, Lines: []lineJ{l}, Body: l.Text + "\n", Strict: cs.Strict}
 }
 
 type bbVerdict struct {
@@ -352,6 +372,8 @@ func (e *bbEnv) check(cs *caseJ) (v bbVerdict, err error) {
 	var lastDiff string
 	var lastInvented bool
 	var lastEmpty bool
+	inventedPolls := 0
+	lastLine := -1
 	for {
 		res, qerr := srv.Query(dbName, q, nil)
 		if !srv.Alive() {
@@ -370,7 +392,7 @@ func (e *bbEnv) check(cs *caseJ) (v bbVerdict, err error) {
 					sentinelSince = time.Now()
 				}
 			}
-			lastDiff, lastInvented, lastEmpty = "", false, true
+			lastDiff, lastInvented, lastEmpty, lastLine = "", false, true, -1
 			for i, m := range names {
 				r := byID[i+1]
 				if r.Err != "" && !strings.Contains(r.Err, "measurement not found") {
@@ -389,8 +411,8 @@ func (e *bbEnv) check(cs *caseJ) (v bbVerdict, err error) {
 				if ex == nil {
 					ex = expected{}
 				}
-				if d, inv := diffAll(cs, ex, obs); d != "" && (lastDiff == "" || inv && !lastInvented) {
-					lastDiff, lastInvented = fmt.Sprintf("measurement %q: %s", m, d), inv
+				if d, inv, ln := diffAll(cs, ex, obs); d != "" && (lastDiff == "" || inv && !lastInvented) {
+					lastDiff, lastInvented, lastLine = fmt.Sprintf("measurement %q: %s", m, d), inv, ln
 				}
 			}
 			// with broken lines in the request the sentinels must have been visible for a while before a state is
@@ -410,7 +432,14 @@ func (e *bbEnv) check(cs *caseJ) (v bbVerdict, err error) {
 		if settled {
 			break
 		}
-		if time.Now().After(deadline) {
+		// something stored that no valid line wrote does not go away: no need to wait for the deadline once the
+		// index has caught up and three polls in a row saw it
+		if lastInvented && !sentinelSince.IsZero() && time.Since(sentinelSince) > 1500*time.Millisecond {
+			inventedPolls++
+		} else {
+			inventedPolls = 0
+		}
+		if time.Now().After(deadline) || inventedPolls >= 3 {
 			if sentinelSince.IsZero() {
 				bb.Fatal("sentinel points did not become visible in 20 s (%s)", lastDiff)
 			}
@@ -418,7 +447,7 @@ func (e *bbEnv) check(cs *caseJ) (v bbVerdict, err error) {
 			if !mustAll {
 				what = "the valid lines must be stored as a whole or not at all, and nothing else"
 			}
-			return v, fmt.Errorf("HTTP %d (%s); after 20 s: %s [%s]", status, strings.TrimSpace(resp), lastDiff, what)
+			return v, &violation{msg: fmt.Sprintf("HTTP %d (%s): %s [%s]", status, strings.TrimSpace(resp), lastDiff, what), line: lastLine}
 		}
 		time.Sleep(100 * time.Millisecond)
 	}
@@ -516,17 +545,26 @@ func (e *bbEnv) checkFieldTypes(cs *caseJ, exp map[string]expected) error {
 }
 
 func bbOpts(prefix string) genOpts {
-	return genOpts{prefix: prefix, minLines: 50, maxLines: 200}
+	return genOpts{prefix: prefix, minLines: 50, maxLines: 200, bigBodies: true}
 }
 
 func TestWriteQueryRoundTrip(t *testing.T) {
 	env := newEnv(0)
 	rapid.Check(t, ev.Prop(prop, "write_query_roundtrip", func(t *rapid.T, c *ev.Case) {
-		o := genCase(rapidSrc{t}, bbOpts(env.nextPrefix()))
+		opt, strict := withEnvSwitches(bbOpts(env.nextPrefix()))
+		o := genCase(rapidSrc{t}, opt)
+		o.cs.Strict = strict
 		commit(c, o)
 		v, err := env.check(o.cs)
 		if err != nil {
-			c.Failf(t, prop, o.cs, "%v", err)
+			rep, msg := o.cs, err.Error()
+			if ve, ok := err.(*violation); ok && ve.line >= 0 && len(o.cs.Lines) > 1 {
+				small := reduceToLine(o.cs, ve.line, env.nextPrefix())
+				if _, e2 := env.check(small); e2 != nil {
+					rep, msg = small, e2.Error()+" (case reduced to the offending line)"
+				}
+			}
+			c.Failf(t, prop, rep, "%s", msg)
 		}
 		nb, _ := o.cs.broken()
 		c.Class(fmt.Sprintf("http_%d", v.status))
@@ -544,7 +582,7 @@ func TestWriteQueryRoundTrip(t *testing.T) {
 		if v.statusSkipped {
 			c.Excluded(exSilentDrop)
 		}
-		c.Class(fmt.Sprintf("lines_%d+", len(o.cs.Lines)/50*50))
+		c.Class(fmt.Sprintf("lines_%d+", min(len(o.cs.Lines)/50*50, 250)))
 		if o.nt && v.stored {
 			smp := o.cs.Lines
 			if len(smp) > 3 {
